@@ -74,7 +74,7 @@ def gen(rng, i, tier):
                 ns.append([b.numerator, b.denominator, c, rng.choice(kinds), 0, ks])
     types = rng.choice([ALLTYPES, ALLTYPES, DEFAULT, "".join(t for t in ALLTYPES if rng.random() < 0.6), "23", "34", "234", "", "1", "M", "3"])
     return {"ns": ns, "types": types, "mode": rng.choice([1, 2, 3]), "join": rng.random() < 0.7, "ph": rng.choice([1, 2, 3]), "pt": rng.choice([1, 2, 3]),
-            "min": rng.choice([1, 1, 2, 3, 4])}
+            "min": rng.choice([1, 1, 2, 3, 4]), "shape": rng.choice([0, 0, 1, 2, 3])}
 
 
 N_QUICK = len(enumeration(2)) + 1500
@@ -98,16 +98,22 @@ def item_obs(x):
     return o
 
 
+def shaped(c, ns):
+    """the stream as the caller may hand it over: a list, a tuple, a one-shot iterator or a generator (all are Iterable[Note])"""
+    k = c.get("shape", 0)
+    return ns if k == 0 else tuple(ns) if k == 1 else iter(ns) if k == 2 else (n for n in ns)
+
+
 def impl(c):
     from simfile.notes import NoteType
     from simfile.notes.group import group_notes, SameBeatNotes, OrphanedNotes, OrphanedNoteException
     from simfile.notes import count
-    ns = [G.mk_note(o) for o in stream(c)]
+    notes_list = [G.mk_note(o) for o in stream(c)]
     types = frozenset(NoteType(t) for t in c["types"])
     mode = SameBeatNotes(c["mode"])
     ph, pt = OrphanedNotes(c["ph"]), OrphanedNotes(c["pt"])
     try:
-        groups = [[item_obs(x) for x in g] for g in group_notes(ns, include_note_types=types, same_beat_notes=mode, join_heads_to_tails=c["join"],
+        groups = [[item_obs(x) for x in g] for g in group_notes(shaped(c, notes_list), include_note_types=types, same_beat_notes=mode, join_heads_to_tails=c["join"],
                                                                orphaned_head=ph, orphaned_tail=pt)]
         res = ["ok", groups]
     except OrphanedNoteException as e:
@@ -115,18 +121,18 @@ def impl(c):
 
     def hr(f):
         try:
-            return ["ok", f(ns, orphaned_head=ph, orphaned_tail=pt)]
+            return ["ok", f(shaped(c, notes_list), orphaned_head=ph, orphaned_tail=pt)]
         except OrphanedNoteException as e:
             return ["orphan", G.note_obs(e.args[0])]
     counts = {
-        "steps": count.count_steps(ns, include_note_types=types, same_beat_notes=mode, same_beat_minimum=c["min"]),
-        "jumps": count.count_jumps(ns, include_note_types=types, same_beat_notes=mode),
-        "hands": count.count_hands(ns, include_note_types=types, same_beat_notes=mode),
-        "hands_min": count.count_hands(ns, include_note_types=types, same_beat_notes=mode, same_beat_minimum=c["min"]),
-        "mines": count.count_mines(ns),
+        "steps": count.count_steps(shaped(c, notes_list), include_note_types=types, same_beat_notes=mode, same_beat_minimum=c["min"]),
+        "jumps": count.count_jumps(shaped(c, notes_list), include_note_types=types, same_beat_notes=mode),
+        "hands": count.count_hands(shaped(c, notes_list), include_note_types=types, same_beat_notes=mode),
+        "hands_min": count.count_hands(shaped(c, notes_list), include_note_types=types, same_beat_notes=mode, same_beat_minimum=c["min"]),
+        "mines": count.count_mines(shaped(c, notes_list)),
         "holds": hr(count.count_holds),
         "rolls": hr(count.count_rolls),
-        "steps_default": count.count_steps(ns),
+        "steps_default": count.count_steps(shaped(c, notes_list)),
     }
     return {"res": res, "counts": counts}
 
